@@ -170,6 +170,56 @@ func c08Raw(c *core.Ctx, in c08Case, key [16]byte, payload []byte, mk func() c08
 
 var gridPayloads = map[int][]byte{0: {}, 1: {1}, 5: {1, 2, 3, 4, 5}}
 
+// c08History: the result of a call must not depend on earlier calls with the same parameters (a keystream or state
+// kept between calls). R1 is computed right after an unrelated call, then a short call with the same parameters is
+// made, then the long call is repeated: R1 must equal R2. Uses the API only.
+type c08Hist struct {
+	Op     string `json:"op"`
+	Alg    int    `json:"alg"`
+	Bearer int    `json:"bearer"`
+	Dir    int    `json:"direction"`
+	Key    string `json:"key"`
+	Count  uint32 `json:"count"`
+	Short  int    `json:"short_len"`
+	Long   int    `json:"long_len"`
+}
+
+func c08HistExec(c *core.Ctx, in c08Hist) {
+	key := hexKey(in.Key)
+	other := key
+	other[0] ^= 0xFF
+	call := func(k [16]byte, n int) ([]byte, error) {
+		p := patPayload(2, n)
+		if in.Op == "mac" {
+			return security.NASMacCalculate(uint8(in.Alg), k, in.Count, uint8(in.Bearer), uint8(in.Dir), p)
+		}
+		err := security.NASEncrypt(uint8(in.Alg), k, in.Count, uint8(in.Bearer), uint8(in.Dir), p)
+		return p, err
+	}
+	var r1, r2 []byte
+	var e1, e2 error
+	pi := core.Try(func() {
+		call(other, 7)
+		r1, e1 = call(key, in.Long)
+		r1 = append([]byte{}, r1...)
+		call(other, 9)
+		call(key, in.Short)
+		r2, e2 = call(key, in.Long)
+	})
+	name := fmt.Sprintf("%s|alg%d", in.Op, in.Alg)
+	if pi != nil {
+		c.FailCase(name+"|"+pi.Key(), "panics: "+pi.Msg, "history", in)
+		return
+	}
+	if e1 != nil || e2 != nil || !bytes.Equal(r1, r2) {
+		first := 0
+		for first < len(r1) && first < len(r2) && r1[first] == r2[first] {
+			first++
+		}
+		c.FailCase(name+"|result-depends-on-earlier-call", fmt.Sprintf("%s alg=%d bearer=%d dir=%d count=%08x: the %d-octet result computed after a %d-octet call with the same parameters differs from the one computed before it (first differing octet %d; errors %v %v)", in.Op, in.Alg, in.Bearer, in.Dir, in.Count, in.Long, in.Short, first, e1, e2), "history", in)
+	}
+}
+
 func c08Run(c *core.Ctx) {
 	var n int64
 	k := hex.EncodeToString(pubKey1[:])
@@ -250,6 +300,30 @@ func c08Run(c *core.Ctx) {
 			c.Tick()
 		}
 	}
+	// history independence on every valid triple
+	u = 0
+	for alg := 1; alg <= 3; alg++ {
+		for b := 0; b < 32; b++ {
+			u++
+			if !c.Mine(u) {
+				continue
+			}
+			for d := 0; d < 2; d++ {
+				for _, op := range []string{"encrypt", "mac"} {
+					for _, sl := range [][2]int{{1, 65}, {5, 80}, {64, 129}, {3, 300}, {70, 72}, {16, 17}} {
+						if !c.Thorough() && b%4 != 0 && sl[1] > 100 {
+							continue
+						}
+						in := c08Hist{Op: op, Alg: alg, Bearer: b, Dir: d, Key: k, Count: 0x00000203, Short: sl[0], Long: sl[1]}
+						if c.Begin("history", "NASEncrypt/NASMacCalculate", in) {
+							c08HistExec(c, in)
+							n++
+						}
+					}
+				}
+			}
+		}
+	}
 	c.Add("evaluations", n)
 	if c.Shard == 0 {
 		c.Sample("case", 1, func() any {
@@ -275,11 +349,12 @@ func init() {
 	core.RegisterKind("C08", "grid", func(c *core.Ctx, in map[string]int) {})
 	core.RegisterKind("C08", "laws", func(c *core.Ctx, in map[string]int) {})
 	core.RegisterKind("C08", "case", c08Exec)
+	core.RegisterKind("C08", "history", c08HistExec)
 	core.RegisterProp(&core.PropSpec{
 		ID: "C08", Level: "exploration", Run: c08Run,
 		Shards: func(string) int { return 16 },
 		Rule: func(tier string) string {
-			return "all 256 algorithm identities x 256 bearers x 256 directions (2^24 parameter triples) through NASEncrypt and NASMacCalculate with payload lengths {0,1,5} and nil on the boundary rows; for the 4x32x2 valid triples every payload length 0..80 (thorough 0..300) and keys/counts from the deviation alphabets: length preservation, involution, prefix stability (every prefix length at the longest payload of each parameter tuple, boundary prefixes elsewhere), keystream independence across plaintexts, NEA0/NIA0 behaviour, errors leaving the payload untouched, 4-octet MACs, arguments unmodified, no panic. A case is distinct by (operation, algorithm, bearer, direction, key, count, payload)."
+			return "all 256 algorithm identities x 256 bearers x 256 directions (2^24 parameter triples) through NASEncrypt and NASMacCalculate with payload lengths {0,1,5} and nil on the boundary rows; for the 4x32x2 valid triples every payload length 0..80 (thorough 0..300) and keys/counts from the deviation alphabets: length preservation, involution, prefix stability (every prefix length at the longest payload of each parameter tuple, boundary prefixes elsewhere), keystream independence across plaintexts, NEA0/NIA0 behaviour, errors leaving the payload untouched, 4-octet MACs, arguments unmodified, no panic, results independent of earlier calls with the same parameters and of what the caller does with earlier results. A case is distinct by (operation, algorithm, bearer, direction, key, count, payload)."
 		},
 		Assumptions: []string{"keys and counts from the structured alphabets of C06"},
 		Finish:      func(m *core.Merged, cov map[string]any) { cov["distinct_nontrivial"] = m.Counters["evaluations"] },
